@@ -107,6 +107,24 @@ func runC07(r *core.Run) {
 	for _, wl := range [][2]int{{32768, 22310}, {32768, 22311}, {25000, 25001}} {
 		cases = append(cases, fileCase{Writer: "ours", W: wl[0], Chunker: "size-1", L: wl[1], K: 1, Pattern: "distinct"})
 	}
+	// how the bytes reach the builder does not matter: the same content handed
+	// over by a reader positioned after an already consumed header, a section
+	// reader, a buffer, an opaque reader, a positioned *os.File gives the same DAG
+	base := len(cases)
+	for i := 0; i < base; i++ {
+		c := cases[i]
+		if c.L > 300*1024 || (c.L > 64 && i%7 != 0) {
+			continue
+		}
+		for j, src := range fileSources {
+			if src == "file" && (i+j)%5 != 0 {
+				continue
+			}
+			c2 := c
+			c2.Source = src
+			cases = append(cases, c2)
+		}
+	}
 	groups := groupByWidth(cases)
 	var widths []int
 	for w := range groups {
